@@ -262,6 +262,7 @@ var (
 	c02NsRe    = regexp.MustCompile(`\{namespace\s+([\w.]+)`)
 	c02AliasRe = regexp.MustCompile(`\{alias\s+([\w.]+)\s*\}`)
 	c02CallRe  = regexp.MustCompile(`\{call\s+(?:name="([^"]+)"|([.\w]+))`)
+	c02LitRe   = regexp.MustCompile(`(?s)\{literal\}(.*?)\{/literal\}`)
 )
 
 func c02WalkAll(n ast.Node, f func(ast.Node)) {
@@ -319,6 +320,7 @@ func c02Names(e *env, files []srcFile, reg *template.Registry) {
 			}
 		}
 		var got []string
+		raw := map[string]int{}
 		for _, sf := range reg.SoyFiles {
 			if sf.Name != f.Name {
 				continue
@@ -328,7 +330,20 @@ func c02Names(e *env, files []srcFile, reg *template.Registry) {
 					if c, ok := n.(*ast.CallNode); ok {
 						got = append(got, c.Name)
 					}
+					if t, ok := n.(*ast.RawTextNode); ok {
+						raw[string(t.Text)]++
+					}
 				})
+			}
+		}
+		// literal_tag (Properties/C02.v): the body of every {literal} block of the source text is the text of a raw-text
+		// node of the parsed file, byte for byte (no line joining, no comments, no tags)
+		for _, m := range c02LitRe.FindAllStringSubmatch(f.Text, -1) {
+			e.res.Histogram["literal-blocks"]++
+			if raw[m[1]] == 0 {
+				e.res.Fail(hx.Violation{Kind: "oracle", What: "a {literal} block does not reach the syntax tree byte for byte", Case: progCase{Files: files}, Expected: hx.Q(m[1])}, "")
+			} else {
+				raw[m[1]]--
 			}
 		}
 		sort.Strings(want)
